@@ -277,11 +277,11 @@ def r7_use_is_complete_when_read(ctx, rep):
 
 
 RULES = [
-    RuleSpec("C07.R6", r6_block_scope, "block-local declarations stay out of the enclosing scope", floor=8),
-    RuleSpec("C07.R7", r7_use_is_complete_when_read, "importers are correlated after their exporters (shared with C06.R3)", floor=11),
-    RuleSpec("C07.R1", r1_alias_mutation, "a host's table is never mutated through an alias", floor=8),
-    RuleSpec("C07.R2", r2_innermost_wins, "innermost declaration wins (write order per table)", floor=8),
-    RuleSpec("C07.R3", r3_lower_keys, "case-insensitive keys", floor=25),
-    RuleSpec("C07.R4", r4_no_project_fallback, "no project-wide fallback in correlate", floor=10),
-    RuleSpec("C07.R5", r5_type_extension_order, "type extension order", floor=6),
+    RuleSpec("C07.R6", r6_block_scope, "block-local declarations stay out of the enclosing scope", floor=4),
+    RuleSpec("C07.R7", r7_use_is_complete_when_read, "importers are correlated after their exporters (shared with C06.R3)", floor=5),
+    RuleSpec("C07.R1", r1_alias_mutation, "a host's table is never mutated through an alias", floor=4),
+    RuleSpec("C07.R2", r2_innermost_wins, "innermost declaration wins (write order per table)", floor=4),
+    RuleSpec("C07.R3", r3_lower_keys, "case-insensitive keys", floor=16),
+    RuleSpec("C07.R4", r4_no_project_fallback, "no project-wide fallback in correlate", floor=8),
+    RuleSpec("C07.R5", r5_type_extension_order, "type extension order", floor=3),
 ]
